@@ -30,7 +30,7 @@ from bumble import controller as _controller
 from bumble import hci
 from bumble import host as _host
 from pyvc import ext_c03  # noqa: F401  (skeleton-profile extensions, see the module docstring)
-from pyvc.contracts import (Any, Bool, Callback, Const, Inst, Int, IntRange, OneOf, Opaque, Opt, Str, contract, iff,
+from pyvc.contracts import (Any, Bool, Callback, ConcList, Const, Inst, Int, IntRange, OneOf, Opaque, Opt, Str, contract, iff,
                             implies, lemma, model)
 
 ENVIRONMENT = [
@@ -41,6 +41,13 @@ ENVIRONMENT = [
     'Command Complete / Command Status events are constructed only in Controller.on_hci_command_packet and '
     'Controller._send_hci_command_status, and _send_hci_command_status is called only from on_hci_*_command handlers, '
     'all of which are under contract; hence no unmodelled callee can emit a reply',
+    'C03 representation invariants used as preconditions, with their syntactic justification checked at import over the '
+    'whole bumble package: Controller.link is assigned only in Controller.__init__ (proved: never None afterwards); '
+    'Host.pending_command / pending_response are assigned only in Host.__init__/_send_command and the command '
+    'semaphore is used only by the functions under contract; ASSUMED, not proved: every entry of '
+    'Controller.peripheral_cis_links carries its ACL connection (only on_le_cis_request inserts, with '
+    'acl_connection=connection; acl_connection is reset to None only for central CIS links) -- this discharges the '
+    '`assert pending_cis_link.acl_connection` in on_hci_le_accept_cis_request_command',
     'C03: a command handler is found by getattr on the class; instance attributes named on_hci_*_command added at run '
     'time are not considered',
     'C03: for an op-code without registered class the packet is a generic HCI_Command whose name is '
@@ -128,8 +135,72 @@ def _side_conditions():
             continue
         if hasattr(Controller, 'on_' + hci.HCI_Command.command_name(op).lower()):
             problems.append(f'op-code {op:#06x} without class resolves to the Controller attribute on_{hci.HCI_Command.command_name(op).lower()}')
+    problems.extend(_state_writers())
     if problems:
         raise AssertionError('C03 side conditions violated:\n  ' + '\n  '.join(problems))
+
+
+def _walk_with_qualname(tree):
+    """(node, qualified name of the enclosing def/class) for every node of a module"""
+
+    def visit(node, qual):
+        for child in ast.iter_child_nodes(node):
+            q = qual
+            if isinstance(child, (ast.FunctionDef, ast.AsyncFunctionDef, ast.ClassDef)):
+                q = (qual + '.' if qual else '') + child.name
+            yield child, qual
+            yield from visit(child, q)
+
+    yield from visit(tree, '')
+
+
+def _state_writers():
+    """who writes the state the representation invariants talk about (syntactic, whole bumble package)"""
+    import glob
+    import os
+
+    problems = []
+    root = os.path.dirname(_controller.__file__)
+    host_writers = {'Host.__init__', 'Host._send_command'}
+    sem_users = {'Host.__init__', 'Host._send_command', 'Host.flush', 'Host.on_command_processed', 'Host.on_hci_command_complete_event'}
+    for fn in sorted(glob.glob(os.path.join(root, '**', '*.py'), recursive=True)):
+        rel = os.path.relpath(fn, root)
+        tree = ast.parse(open(fn).read())
+        for node, qual in _walk_with_qualname(tree):
+            if not isinstance(node, ast.Attribute):
+                continue
+            store = isinstance(node.ctx, (ast.Store, ast.Del))
+            cls = qual.split('.')[0] if qual else ''
+            on_self = isinstance(node.value, ast.Name) and node.value.id == 'self'
+            # Controller.link: assigned in Controller.__init__ only (so `link is not None` is an invariant)
+            if node.attr == 'link' and store:
+                if (rel, qual) == ('controller.py', 'Controller.__init__'):
+                    continue
+                if not (on_self and cls != 'Controller'):
+                    problems.append(f'{rel}:{node.lineno} {qual}: assigns .link of an object that may be a Controller')
+            # CisLink.acl_connection: reset only for central CIS links, set when a request is accepted/created
+            if node.attr == 'acl_connection' and store and (rel, qual) not in (('controller.py', 'Controller.on_le_cis_disconnected'), ('controller.py', 'Controller.on_hci_le_create_cis_command')):
+                problems.append(f'{rel}:{node.lineno} {qual}: assigns .acl_connection')
+            if node.attr == 'peripheral_cis_links' and rel != 'controller.py':
+                problems.append(f'{rel}:{node.lineno} {qual}: touches peripheral_cis_links')
+            # Host command state
+            if rel == 'host.py' and cls == 'Host' and node.attr in ('pending_command', 'pending_response') and store and '.'.join(qual.split('.')[:2]) not in host_writers:
+                problems.append(f'{rel}:{node.lineno} {qual}: assigns Host.{node.attr}')
+            if node.attr == 'command_semaphore':
+                if rel != 'host.py' or '.'.join(qual.split('.')[:2]) not in sem_users:
+                    problems.append(f'{rel}:{node.lineno} {qual}: uses the host command semaphore')
+                elif store and qual != 'Host.__init__':
+                    problems.append(f'{rel}:{node.lineno} {qual}: re-assigns the host command semaphore')
+    # the only insertion into peripheral_cis_links stores a CisLink built with its ACL connection
+    ctree = ast.parse(inspect.getsource(_controller))
+    for node, qual in _walk_with_qualname(ctree):
+        if isinstance(node, ast.Subscript) and isinstance(node.ctx, ast.Store) and isinstance(node.value, ast.Attribute) and node.value.attr == 'peripheral_cis_links':
+            if qual != 'Controller.on_le_cis_request':
+                problems.append(f'controller.py:{node.lineno} {qual}: inserts into peripheral_cis_links')
+        if isinstance(node, ast.Call) and getattr(node.func, 'id', None) == 'CisLink' and qual == 'Controller.on_le_cis_request':
+            if not any(kw.arg == 'acl_connection' and not (isinstance(kw.value, ast.Constant) and kw.value.value is None) for kw in node.keywords):
+                problems.append(f'controller.py:{node.lineno} on_le_cis_request builds a CisLink without acl_connection')
+    return problems
 
 
 _side_conditions()
@@ -301,6 +372,7 @@ contract(
     ensures=lambda op_code, ghost, old: [ghost.replies == old.ghost.replies + 1, ghost.last_op == op_code],
     ensures_names=['one-status', 'for-the-given-opcode'],
     modifies=CTL_MOD,
+    solver_procs=1,
 )
 
 
@@ -317,6 +389,7 @@ contract(
     ensures=lambda self: [self.link is not None],
     ensures_names=['link-attached'],
     modifies=['self.*'],
+    solver_procs=1,
 )
 
 
@@ -340,6 +413,7 @@ contract(
     ensures=lambda self, ghost, old: [ghost.scheduled == old.ghost.scheduled + (1 if self.host is not None else 0)],
     ensures_names=['one-delivery-scheduled-iff-host-attached'],
     modifies=['ghost.scheduled'],
+    solver_procs=1,
     stubs={asyncio.get_running_loop: Callback('get_running_loop', effect=lambda ghost: ghost.loop)},
 )
 
@@ -396,6 +470,132 @@ contract(
     note=f'generic HCI_Command: any op-code without registered class ({len(NAMED_WITHOUT_CLASS)} of them have a name); name string: see ENVIRONMENT',
     **dict(PACKET_COMMON, requires=lambda self, command: [self.link is not None, command.op_code not in CLASS_OPCODES]),
 )
+
+
+
+# ---------------------------------------------------------------------------
+# procedures accepted as pending: safety shadow of "eventually concluded"
+# ---------------------------------------------------------------------------
+# Liveness (the completion event eventually arrives) is not reachable with contracts.  Its safety shadow is: on every
+# path on which a handler of one of the procedures named in the statement answers with Command Status 0x00
+# (pending / accepted), something that can produce the completion has been put in place before the handler returns:
+# an LMP/LL PDU went to the peer (whose answer the controller turns into the completion event), a completion helper
+# (on_classic_connection_complete, on_le_disconnected, ...) was called, or the pending object was stored for the
+# function that consumes it (pending_le_connection -> create_le_connection when the peer advertises).
+def proc_send(ghost, packet):
+    r = is_reply(packet)
+    ghost.replies = ghost.replies + (1 if r else 0)
+    ghost.last_status = packet.status if isinstance(packet, hci.HCI_Command_Status_Event) else ghost.last_status
+
+
+def continuation(ghost, *args):
+    ghost.cont = ghost.cont + 1
+
+
+model('ghost:LmpFuture', fields={}, methods={'add_done_callback': Callback('add_done_callback')})
+model('ghost:Connection', fields=dict(peer_address=Any, role=Any, transport=Any, handle=Any),
+      methods={'send_ll_control_pdu': Callback('send_ll_control_pdu', effect=continuation)})
+model('bumble.controller:CisLink#any', fields=dict(acl_connection=Opt(Inst('ghost:Connection')), cig_id=Any, cis_id=Any, handle=Any))
+model('bumble.controller:CisLink#peripheral-proc', fields=dict(acl_connection=Inst('ghost:Connection'), cig_id=Any, cis_id=Any, handle=Any))
+model('bumble.controller:ScoLink#any', fields=dict(peer_address=Any, link_type=Any, handle=Any))
+# the connection tables as seen through the look-ups for the handle of the command: what each table holds for that
+# handle is fixed but arbitrary (ghost.le / classic / sco / central / peripheral), so repeated look-ups agree
+LOOKUP_GHOST = dict(
+    le=Opt(Inst('ghost:Connection')), classic=Opt(Inst('ghost:Connection')), sco=Opt(Inst('bumble.controller:ScoLink#any')),
+    central=Opt(Inst('bumble.controller:CisLink#any')), peripheral=Opt(Inst('bumble.controller:CisLink#peripheral-proc')),
+)
+model('ghost:CisTable', fields={}, methods={'get': Callback('get', effect=lambda ghost, handle: ghost.central)})
+model('ghost:PeripheralCisTable#proc', fields={}, methods={'get': Callback('get', effect=lambda ghost, handle: ghost.peripheral)})
+
+
+def find_any(ghost, handle):
+    return ghost.le if ghost.le is not None else ghost.classic
+
+
+PROC_FIELDS = dict(CTRL_FIELDS)
+PROC_FIELDS.update(
+    pending_le_connection=Opt(Opaque('pending')),
+    central_cis_links=Inst('ghost:CisTable'),
+    peripheral_cis_links=Inst('ghost:PeripheralCisTable#proc'),
+)
+model(
+    'bumble.controller:Controller#proc',
+    fields=PROC_FIELDS,
+    methods=dict(
+        send_hci_packet=Callback('send_hci_packet', effect=proc_send),
+        send_lmp_packet=Callback('send_lmp_packet', effect=continuation, returns=Inst('ghost:LmpFuture')),
+        on_classic_connection_complete=Callback('on_classic_connection_complete', effect=continuation),
+        on_classic_disconnected=Callback('on_classic_disconnected', effect=continuation),
+        on_classic_sco_connection_complete=Callback('on_classic_sco_connection_complete', effect=continuation),
+        on_classic_sco_disconnected=Callback('on_classic_sco_disconnected', effect=continuation),
+        on_le_disconnected=Callback('on_le_disconnected', effect=continuation),
+        on_le_cis_disconnected=Callback('on_le_cis_disconnected', effect=continuation),
+        on_le_encrypted=Callback('on_le_encrypted', effect=continuation),
+        find_connection_by_handle=Callback('find_connection_by_handle', effect=find_any),
+        find_le_connection_by_handle=Callback('find_le_connection_by_handle', effect=lambda ghost, handle: ghost.le),
+        find_classic_connection_by_handle=Callback('find_classic_connection_by_handle', effect=lambda ghost, handle: ghost.classic),
+        find_classic_sco_link_by_handle=Callback('find_classic_sco_link_by_handle', effect=lambda ghost, handle: ghost.sco),
+    ),
+)
+PROCEDURES = [
+    'on_hci_create_connection_command', 'on_hci_le_create_connection_command', 'on_hci_le_extended_create_connection_command',
+    'on_hci_disconnect_command', 'on_hci_remote_name_request_command', 'on_hci_read_remote_supported_features_command',
+    'on_hci_read_remote_extended_features_command', 'on_hci_le_read_remote_features_command', 'on_hci_le_enable_encryption_command',
+    'on_hci_le_create_cis_command', 'on_hci_le_accept_cis_request_command',
+]
+
+
+def pending_has_continuation(self, command, ghost, old):
+    accepted = ghost.replies == old.ghost.replies + 1 and ghost.last_status == hci.HCI_COMMAND_STATUS_PENDING
+    return [implies(accepted, ghost.cont > old.ghost.cont or self.pending_le_connection is command)]
+
+
+LOOKUP_USES = {
+    'find_le_connection_by_handle': ('le',), 'find_classic_connection_by_handle': ('classic',), 'find_connection_by_handle': ('le', 'classic'),
+    'find_classic_sco_link_by_handle': ('sco',), 'central_cis_links': ('central',), 'peripheral_cis_links': ('peripheral',),
+    'find_iso_link_by_handle': ('central', 'peripheral'),
+}
+
+
+def lookup_ghost(fn):
+    """only the tables the handler consults are arbitrary (the others are never read: fixed to None to save paths)"""
+    src = inspect.getsource(fn)
+    used = {g for name, gs in LOOKUP_USES.items() if name in src for g in gs}
+    return {k: (t if k in used else Const(None)) for k, t in LOOKUP_GHOST.items()}
+
+
+def proc_contract(_h, command_inst, suffix='', note=''):
+    _fn = getattr(Controller, _h)
+    if list(inspect.signature(_fn).parameters)[1] != 'command':
+        raise AssertionError(f'C03: {_h} does not call its parameter `command`')
+    contract(
+        f'bumble.controller:Controller.{_h}',
+        key=f'bumble.controller:Controller.{_h}@procedure{suffix}',
+        prop='C03',
+        profile='skeleton',
+        params=dict(self=Inst('bumble.controller:Controller#proc'), command=command_inst),
+        ghost=dict(lookup_ghost(_fn), replies=Int, last_status=Int, cont=Int),
+        requires=link_attached,
+        ensures=pending_has_continuation,
+        ensures_names=['accepted-as-pending-implies-completion-source'],
+        modifies=['ghost.replies', 'ghost.last_status', 'ghost.cont'],
+        invariants={i: (lambda ghost, old: [ghost.replies == old.ghost.replies, ghost.cont >= old.ghost.cont]) for i in range(loops_of(_fn))},
+        inline=['Controller._send_hci_command_status', 'Controller.find_iso_link_by_handle'],
+        note='safety shadow of "every procedure accepted as pending is eventually concluded"' + note,
+        solver_procs=1,
+    )
+
+
+for _h in PROCEDURES:
+    if _h == 'on_hci_le_create_cis_command':
+        # the per-CIS loop runs over zip(two list fields): bounded stand-in, 1 and 2 CIS entries (CIS_Count >= 1 by the
+        # HCI specification; with 0 entries the handler answers pending and does nothing)
+        for _n in (1, 2):
+            _m = f'bumble.hci:HCI_LE_Create_CIS_Command#n{_n}'
+            model(_m, fields=dict(cis_connection_handle=ConcList(IntRange(0, 0xFFFF), _n), acl_connection_handle=ConcList(IntRange(0, 0xFFFF), _n)))
+            proc_contract(_h, Inst(_m), suffix=f'-n{_n}', note=f'; bounded: {_n} CIS entr{"y" if _n == 1 else "ies"}')
+        continue
+    proc_contract(_h, COMMAND_INST[HANDLER_CLASS[_h]])
 
 
 # ===========================================================================
@@ -687,6 +887,7 @@ contract(
     ],
     ensures_names=['inv-sem>=0', 'inv-sem<=1', 'inv-pending-pair', 'inv-outstanding-implies-locked', 'waiting-caller-gets-the-exception', 'flush-emitted'],
     modifies=['ghost.failures', 'ghost.flushes'],
+    solver_procs=1,
 )
 
 
@@ -706,4 +907,5 @@ contract(
     ensures=lambda self, ghost, old: [ghost.delivered == old.ghost.delivered + (1 if self.hci_sink is not None else 0)],
     ensures_names=['handed-to-the-sink-once'],
     modifies=['ghost.delivered'],
+    solver_procs=1,
 )
